@@ -139,8 +139,39 @@ def rng_fresh():
     RNG_STATE.update(mode="fresh", pos=0, map=None)
 
 
+def rng_concrete(seed):
+    """Mode B prefix: draws are concrete values from a deterministic stream (identical in the symbolic
+    run and in the concrete replay, so they are not inputs)"""
+    import random as _random
+    RNG_STATE.update(mode="concrete", tape=[], pos=0, map=None, gen=_random.Random(seed))
+
+
+def _concrete_draw(kind, args):
+    g = RNG_STATE["gen"]
+    if kind == "randint":
+        lo, hi = args
+        if hi is None:
+            lo, hi = 0, lo
+        return int(lo) + g.randrange(int(hi) - int(lo))
+    if kind == "uniform":
+        a, b = args
+        return a + (b - a) * (g.randrange(1, 64) / 64.0)
+    if kind == "choice":
+        a, p = args
+        items = list(a) if hasattr(a, "__len__") else list(range(int(a)))
+        if p is None:
+            return items[g.randrange(len(items))]
+        pos = [i for i, w in enumerate(p) if w > 0]
+        return items[pos[g.randrange(len(pos))]]
+    if kind == "normal":
+        return (g.randrange(-128, 129)) / 64.0
+    raise HarnessError("concrete draw of " + kind)
+
+
 def _rng(kind, fresh, args=()):
     st = RNG_STATE
+    if st["mode"] == "concrete":
+        return _concrete_draw(kind, args)
     if st["mode"] == "replay":
         if st["pos"] >= len(st["tape"]):
             st["diverged"] = True
